@@ -729,6 +729,11 @@ def _sleep(I, self, args, kw, fr, site):
 
 
 # ---- bytes / str methods
+@intrinsic("bytes.tobytes")
+def _tobytes(I, self, args, kw, fr, site):
+    return VSeq(self.segs, "bytes")
+
+
 @intrinsic("bytes.decode", "str.encode")
 def _codec(I, self, args, kw, fr, site):
     st = I.st
